@@ -56,6 +56,8 @@ def rt_scenario(ctx, j):
         n = j['nyield']
         d = [ctx.real(f'd{i}', 0, None) for i in range(n)]
         e = [ctx.real(f'e{i}', 0, None) for i in range(2)]
+        e2 = ctx.real('e2', 0, None)        # delay of a child started through clock.sched(delay, routine)
+        by_sched = j.get('start') == 'sched'
         obs, cobs, oobs = [], [], []
         start = {}
         child_clock = {'none': None, 'same': clock, 'tempo': tclock, 'sys': clk.SystemClock}[j['child']]
@@ -70,7 +72,10 @@ def rt_scenario(ctx, j):
                 obs.append((clock.seconds, clock.beats, w.now))
                 if i == 1 and child_clock is not None:
                     start['child_parent_time'] = clock.seconds
-                    stm.Routine(child_body).play(child_clock, 0)
+                    if by_sched:
+                        child_clock.sched(e2, stm.Routine(child_body))
+                    else:
+                        stm.Routine(child_body).play(child_clock, 0)
                 yield d[i]
             obs.append((clock.seconds, clock.beats, w.now))
 
@@ -122,8 +127,10 @@ def rt_scenario(ctx, j):
                 raise Violation(f'routine observed {len(obs)} resumptions of {n + 1} and the clock blocks for ever',
                                 None, data('lost'))
             if cobs:
-                ctx.prove(R(cobs[0][0]) == R(start['child_parent_time']),
-                          'child routine does not start at its parent\'s current logical time', data('child-start'))
+                delay = (R(e2) / z3.RealVal(repr(T)) if child_clock is tclock else R(e2)) if by_sched else 0
+                ctx.prove(R(cobs[0][0]) == R(start['child_parent_time']) + delay,
+                          'child routine does not start at its parent\'s current logical time' +
+                          (' + the sched delay' if by_sched else ''), data('child-start'))
                 if len(cobs) > 1:
                     if child_clock is tclock:
                         ctx.prove(R(cobs[1][0]) == R(cobs[0][0]) + R(e[0]) / z3.RealVal(repr(T)),
@@ -164,6 +171,7 @@ def nrt_scenario(ctx, j):
     dB = [ctx.real(f'b{i}', 0, None) for i in range(2)]
     T = float(j.get('tempo', 2.0))
     b0 = ctx.real('beats0') if j.get('offset') else None
+    ds = ctx.real('ds', 0, None)
     execd = []
     obsA, obsB = [], []
     info = {}
@@ -193,7 +201,10 @@ def nrt_scenario(ctx, j):
                         info['clock'] = c
                         info['tA'] = clk.SystemClock.seconds
                         info['beats'] = c.beats
-                        stm.Routine(body_b).play(c, 0)
+                        if j.get('start') == 'sched':
+                            c.sched(ds, stm.Routine(body_b))
+                        else:
+                            stm.Routine(body_b).play(c, 0)
                     yield dA[i]
                 obsA.append(clk.SystemClock.seconds)
                 execd.append(main.elapsed_time())
@@ -211,12 +222,13 @@ def nrt_scenario(ctx, j):
             acc = acc + R(dA[k])
     if len(obsA) != 4 or len(obsB) != 3:
         raise Violation(f'NRT: routines resumed {len(obsA)}/{len(obsB)} times, expected 4/3', None, data('count'))
-    tA = R(info['tA'])
+    tempo = z3.RealVal(repr(T)) if j['inner'] == 'tempo' else z3.RealVal(1)
+    by_sched = j.get('start') == 'sched'
+    tA = R(info['tA']) + (R(ds) / tempo if by_sched else 0)
     ctx.prove(R(obsB[0][0]) == tA, 'NRT: routine started inside a routine does not begin at its parent\'s logical '
               'time', data('child-start'))
-    accb = R(info['beats'])
+    accb = R(info['beats']) + (R(ds) if by_sched else 0)
     accs = tA
-    tempo = z3.RealVal(repr(T)) if j['inner'] == 'tempo' else z3.RealVal(1)
     for k, (sec, beats) in enumerate(obsB):
         ctx.prove(R(beats) == accb, f'NRT: inner routine beats at resumption {k} is not start + sum of deltas',
                   data('closed-form-inner'))
@@ -265,6 +277,7 @@ def _replay_nrt(j, g):
     T = float(j.get('tempo', 2.0))
     b0 = g('beats0', 8.0) if j.get('offset') else None
     t0 = g('t_start', 0.0)
+    ds = g('ds', 0.75)
     obsA, obsB, execd, info = [], [], [], {}
     main.reset()
 
@@ -285,7 +298,10 @@ def _replay_nrt(j, g):
                 c = (clk.TempoClock(T, b0) if b0 is not None else clk.TempoClock(T)) if j['inner'] == 'tempo' else \
                     (clk.AppClock if j['inner'] == 'app' else clk.SystemClock)
                 info.update(clock=c, tA=clk.SystemClock.seconds, beats=c.beats)
-                stm.Routine(body_b).play(c, 0)
+                if j.get('start') == 'sched':
+                    c.sched(ds, stm.Routine(body_b))
+                else:
+                    stm.Routine(body_b).play(c, 0)
             yield dA[i]
         obsA.append(clk.SystemClock.seconds)
         execd.append(main.elapsed_time())
@@ -303,11 +319,13 @@ def _replay_nrt(j, g):
             acc += dA[k]
     if len(obsA) != 4 or len(obsB) != 3:
         return f'NRT: routines resumed {len(obsA)}/{len(obsB)} times'
-    if not tol(obsB[0][0], info['tA']):
-        return f'NRT: routine played on {j["inner"]} clock from a routine at logical time {info["tA"]} starts at ' \
-               f'{obsB[0][0]}'
-    accb, accs = info['beats'], info['tA']
     tempo = T if j['inner'] == 'tempo' else 1.0
+    by_sched = j.get('start') == 'sched'
+    startB = info['tA'] + (ds / tempo if by_sched else 0.0)
+    if not tol(obsB[0][0], startB):
+        return f'NRT: routine started on {j["inner"]} clock from a routine at logical time {info["tA"]}' + \
+               (f' with sched({ds})' if by_sched else '') + f' starts at {obsB[0][0]}, expected {startB}'
+    accb, accs = info['beats'] + (ds if by_sched else 0.0), startB
     for k, (sec, beats) in enumerate(obsB):
         if not tol(beats, accb) or not tol(sec, accs):
             return f'NRT: inner routine resumption {k} at {sec}s / beat {beats}, expected {accs}s / beat {accb}'
@@ -405,8 +423,10 @@ def main(tier, seed):
                 for T in (tempos if 'tempo' in (clock, child) else [2.0]):
                     rt.append(dict(mode='rt', clock=clock, child=child, other=other, nyield=2 if tier == 'quick' else 3,
                                    tempo=T))
-    nrt = [dict(mode='nrt', inner=i, tempo=T, offset=o) for i in ('tempo', 'app', 'sys')
-           for T in ([2.0] if tier == 'quick' else [2.0, 0.5]) for o in ((0, 1) if i == 'tempo' else (0,))]
+    nrt = [dict(mode='nrt', inner=i, tempo=T, offset=o, start=st) for i in ('tempo', 'app', 'sys')
+           for T in ([2.0] if tier == 'quick' else [2.0, 0.5]) for o in ((0, 1) if i == 'tempo' else (0,))
+           for st in ('play', 'sched')]
+    rt += [dict(r, start='sched') for r in rt if r['child'] != 'none' and not r['other']]
     for r in run_jobs('vf.props.c05', 'job', rt, 'rt'):
         chk.add('rt', r)
     for r in run_jobs('vf.props.c05', 'job', nrt, 'nrt'):
